@@ -21,6 +21,8 @@ META = {
 }
 
 PRE = common.PRELUDE + common.TABLE_HELPER + '''
+ALL_ARG_NAMES = sorted(set(a for m in spec.METHODS for a, _, _ in m['args']) | set(n for n, _ in spec.PROPERTIES))
+
 def mapping_ok(f, cls, names, types, values):
     """every mapping entry point agrees with the ordered list `names` and the live values"""
     pairs = list(iter(f))
@@ -68,6 +70,19 @@ def membership_ok(f, names, probe):
                 is_arg = True
         if (cand in f) != is_arg:
             return False
+    for cand in ALL_ARG_NAMES:
+        is_arg = False
+        for n in names:
+            if cand == n:
+                is_arg = True
+        if (cand in f) != is_arg:
+            return False
+        if not is_arg:
+            try:
+                type(f).amqp_type(cand)
+                return False          # a wire type for something that is not an argument of this class
+            except AttributeError:
+                pass
     for cand in ("", "name", "index", "frame_id", "synchronous", "valid_responses", "marshal", "flags"):
         is_arg = False
         for n in names:
